@@ -235,6 +235,10 @@ func (d *Demuxer) parse() error {
 	if totalSize64 > uint64(math.MaxInt) {
 		return ErrTruncated
 	}
+	if totalSize64 < container.RIFFHeaderSize {
+		// RIFF size field smaller than the "WEBP" tag it must cover.
+		return ErrInvalidRIFF
+	}
 	totalSize := int(totalSize64)
 	payload := d.data[container.RIFFHeaderSize:totalSize]
 
